@@ -6,29 +6,30 @@
 cd /verif
 ID=$1; TIER=${2:-quick}
 ./gen_overlay.sh || { echo "overlay generation failed" >&2; exit 2; }
+mkdir -p $BIN
 build_main() {
-  go build -overlay $GEN/overlay.json -o bin/pcheck ./cmd/pcheck
+  go build $MODFLAG -overlay $GEN/overlay.json -o $BIN/pcheck ./cmd/pcheck
 }
 build_ks() {
-  go build -overlay $GEN/overlay_ks.json -o bin/kscheck ./cmd/kscheck && \
-  go build -race -overlay $GEN/overlay_race.json -o bin/ksrace ./cmd/ksrace
+  go build $MODFLAG -overlay $GEN/overlay_ks.json -o $BIN/kscheck ./cmd/kscheck && \
+  go build $MODFLAG -race -overlay $GEN/overlay_race.json -o $BIN/ksrace ./cmd/ksrace
 }
 if [ "$ID" = "C20" ] || { [ "$ID" = "replay" ] && grep -q '"engine": "E4"' "$2" 2>/dev/null; }; then
   build_ks 2> $GEN/build_ks.log || { cat $GEN/build_ks.log >&2; echo "BUILD FAILED (kscheck) - not a verdict" >&2; exit 2; }
 fi
 build_main 2> $GEN/build.log || { cat $GEN/build.log >&2; echo "BUILD FAILED - not a verdict" >&2; exit 2; }
 if [ "$ID" = "replay" ]; then
-  exec ./bin/pcheck replay "$2"
+  exec $BIN/pcheck replay "$2"
 fi
 export VERIF_TIER=$TIER
-./bin/pcheck "$ID" "$TIER" 2> $GEN/run_$ID.err
+$BIN/pcheck "$ID" "$TIER" 2> $GEN/run_$ID.err
 rc=$?
 cat $GEN/run_$ID.err >&2
 if [ $rc -ne 0 ] && [ $rc -ne 1 ] && grep -q "fatal error: concurrent map\|DATA RACE" $GEN/run_$ID.err; then
   # the tree under test keeps package-level mutable state that the parallel in-process explorers tripped over:
   # repeat with a single worker so that a verdict (not a crash) is produced
   echo "re-running $ID with a single worker (package-level mutable state detected in the tree under test)" >&2
-  VERIF_WORKERS=1 ./bin/pcheck "$ID" "$TIER"
+  VERIF_WORKERS=1 $BIN/pcheck "$ID" "$TIER"
   rc=$?
 fi
 exit $rc
